@@ -168,8 +168,10 @@ class AbsoluteModelRef:
     """
 
     class Context:
-        data = threading.local()
-        data.context: ContextInjectionType = None
+        class _Data(threading.local):
+            context: ContextInjectionType = None
+
+        data = _Data()
 
         def __init__(self, patches: ContextInjectionType):
             self.context: ContextInjectionType = patches
